@@ -1021,51 +1021,123 @@ Proof.
     apply IH. intro j. exact (H (S j)).
 Qed.
 
+Lemma zlist_eqb_eq a : forall b, zlist_eqb a b = true -> a = b.
+Proof.
+  induction a as [|x a IHa]; intros [|y b] Hab; cbn [zlist_eqb] in *; try discriminate; [reflexivity|].
+  apply andb_true_iff in Hab. destruct Hab as [H1 H2]. f_equal; [lia|apply IHa, H2].
+Qed.
+
+Lemma nth_error_nth'' {A} (l : list A) n d : (n < length l)%nat -> nth_error l n = Some (nth n l d).
+Proof. revert n. induction l as [|x l IH]; intros [|n] H; cbn [length nth nth_error] in *; try lia; [reflexivity|apply IH; lia]. Qed.
+
+(* out_array[..., range(n)] is the identity *)
+Lemma gather_id {A} (chans : list (list A)) :
+  map (fun j => nth (Z.to_nat j) chans []) (zrange_from 0 (length chans)) = chans.
+Proof.
+  apply nth_error_ext'. intro j. rewrite nth_error_map.
+  destruct (Nat.lt_ge_cases j (length chans)) as [Hj|Hj].
+  - rewrite zrange_from_nth_error by exact Hj. cbn [option_map].
+    replace (Z.to_nat (0 + Z.of_nat j)) with j by lia. symmetry. apply nth_error_nth''. exact Hj.
+  - replace (nth_error (zrange_from 0 (length chans)) j) with (@None Z)
+      by (symmetry; apply nth_error_None; rewrite zrange_from_length; exact Hj).
+    cbn [option_map]. symmetry. apply nth_error_None. exact Hj.
+Qed.
+
+Lemma onehot_length n d plane : 0 <= n -> length (onehot n d plane) = Z.to_nat n.
+Proof. intros Hn. unfold onehot, zrange. rewrite map_length, zrange_from_length. lia. Qed.
+
 Section LabelMapStacked.
   Variables (st : stored) (keys req : list Z).
   Hypothesis Hst : wf_labelmap st.
   Hypothesis Hreq : forallb (fun s => memz s (s_segs st)) req = true.
-  Hypothesis Hnd : NoDup req.
   Hypothesis Hne : req <> [].
+  (* every 1-based request position fits the stored bit depth (always so for duplicate-free requests) *)
+  Hypothesis Hcnt : zlen req <= 2 ^ s_bits st - 1.
 
-  Lemma req_count : zlen req <= 2 ^ s_bits st - 1.
+  (* channel [first position of s] of the one-hot expansion of the remapped plane *)
+  Lemma onehot_gather d raw s :
+    wf_dtype d -> 1 <= dtype_max d -> In s req ->
+    nth (Z.to_nat (index_of s req)) (onehot (zlen req) d (map (lm_label req true) raw)) [] =
+    map (fun v => if v =? s then 1 else 0) raw.
   Proof.
-    destruct Hst as [_ [Hb [Hp _]]].
-    assert (0 < 2 ^ s_bits st) by (apply Z.pow_pos_nonneg; lia).
-    apply NoDup_bounded_length; [lia|exact Hnd|].
-    intros s Hs. specialize (Hp s (req_in_segs st req Hreq s Hs)). lia.
-  Qed.
-
-  Lemma onehot_remapped d raw :
-    wf_dtype d -> 1 <= dtype_max d ->
-    (forall v, In v raw -> v = 0 \/ In v (s_segs st)) ->
-    onehot (zlen req) d (map (lm_label req true) raw) =
-    map (fun s => map (fun v => if v =? s then 1 else 0) raw) req.
-  Proof.
-    intros Hd H1 Hraw. unfold onehot, zrange, zlen.
+    intros Hd H1 Hs. unfold onehot, zrange, zlen.
     replace (Z.to_nat (Z.of_nat (length req) + 1 - 1)) with (length req) by lia.
     rewrite (cast_id d 1) by (auto; lia).
-    apply nth_error_ext'. intro j. rewrite !nth_error_map.
-    destruct (nth_error req j) as [s|] eqn:Ej.
-    - pose proof (nth_error_Some_lt _ _ _ Ej) as Hj.
-      rewrite zrange_from_nth_error by exact Hj. cbn [option_map]. f_equal.
-      rewrite map_map. apply map_ext_in. intros v Hv.
-      assert (Hs : In s req) by (eapply nth_error_In, Ej).
-      unfold lm_label. destruct (memz v req) eqn:Em.
-      + apply memz_In in Em. pose proof (index_of_bound v req Em) as Hb.
-        destruct (v =? s) eqn:Evs.
-        * assert (v = s) by lia. subst v. rewrite (NoDup_nth_error_index req Hnd j s Ej).
-          replace (Z.of_nat j + 1 =? 1 + Z.of_nat j) with true by lia. reflexivity.
-        * destruct (index_of v req + 1 =? 1 + Z.of_nat j) eqn:Ei; [|reflexivity]. exfalso.
-          pose proof (index_of_nth_error v req Em) as Hn.
-          replace (Z.to_nat (index_of v req)) with j in Hn by lia. rewrite Ej in Hn. inversion Hn. lia.
-      + destruct (v =? s) eqn:Evs.
-        * assert (v = s) by lia. subst v. exfalso.
-          assert (memz s req = true) by (apply memz_In; exact Hs). congruence.
-        * replace (0 =? 1 + Z.of_nat j) with false by lia. reflexivity.
-    - assert (length req <= j)%nat by (apply nth_error_None; exact Ej).
-      cbn [option_map]. replace (nth_error (zrange_from 1 (length req)) j) with (@None Z); [reflexivity|].
-      symmetry. apply nth_error_None. rewrite zrange_from_length. exact H.
+    pose proof (index_of_bound s req Hs) as Hb. unfold zlen in Hb.
+    apply nth_error_nth. rewrite nth_error_map, zrange_from_nth_error by lia.
+    cbn [option_map]. f_equal. rewrite map_map. apply map_ext. intros v.
+    unfold lm_label. destruct (memz v req) eqn:Em.
+    - apply memz_In in Em. pose proof (index_of_bound v req Em) as Hbv.
+      destruct (v =? s) eqn:Evs.
+      + assert (v = s) by lia. subst v.
+        replace (index_of s req + 1 =? 1 + Z.of_nat (Z.to_nat (index_of s req))) with true by lia. reflexivity.
+      + destruct (index_of v req + 1 =? 1 + Z.of_nat (Z.to_nat (index_of s req))) eqn:Ei; [|reflexivity]. exfalso.
+        pose proof (index_of_nth_error v req Em) as Hn. pose proof (index_of_nth_error s req Hs) as Hn'.
+        replace (index_of v req) with (index_of s req) in Hn by lia. rewrite Hn' in Hn. inversion Hn. lia.
+    - destruct (v =? s) eqn:Evs.
+      + assert (v = s) by lia. subst v. exfalso.
+        assert (memz s req = true) by (apply memz_In; exact Hs). congruence.
+      + replace (0 =? 1 + Z.of_nat (Z.to_nat (index_of s req))) with false by lia. reflexivity.
+  Qed.
+
+  Lemma remap_stacked_plane key :
+    lookup_all (remap_table st req false false (unsigned_dtype (2 ^ s_bits st - 1))) (lm_raw st key) =
+    Ok (map (lm_label req true) (lm_raw st key)).
+  Proof.
+    apply (remap_plane st req Hst Hreq false false); [apply unsigned_dtype_wf|].
+    intros s Hs. cbn [andb negb]. unfold lm_label.
+    replace (memz s req) with true by (symmetry; apply memz_In; exact Hs).
+    pose proof (index_of_bound s req Hs).
+    destruct Hst as [_ [Hb _]].
+    assert (Hp16 : 2 ^ s_bits st <= 2 ^ 16) by (apply Z.pow_le_mono_r; lia). change (2 ^ 16) with 65536 in Hp16.
+    assert (0 < 2 ^ s_bits st) by (apply Z.pow_pos_nonneg; lia).
+    pose proof (unsigned_dtype_fits (2 ^ s_bits st - 1)). lia.
+  Qed.
+
+  Lemma need_remap_stacked relabel : need_remap st req false relabel = true.
+  Proof.
+    unfold need_remap. cbn [negb orb]. apply negb_true_iff.
+    destruct (zlist_eqb req (zrange 1 (zlen req))) eqn:E; [|reflexivity]. exfalso.
+    apply zlist_eqb_length in E. unfold zrange, zlen in E. rewrite zrange_from_length in E.
+    destruct req; [congruence|cbn [length] in E; lia].
+  Qed.
+
+  (* stacked read of a label map: what labelmap_read reduces to *)
+  Lemma labelmap_stacked_eq (relabel : bool) d :
+    wf_dtype d -> 1 <= dtype_max d ->
+    labelmap_read st keys req false relabel d =
+    Ok (OStack (map (fun key => map (fun s => map (fun v => if v =? s then 1 else 0) (lm_raw st key)) req) keys)).
+  Proof.
+    intros Hd H1. unfold labelmap_read. rewrite need_remap_stacked.
+    set (idt := unsigned_dtype (2 ^ s_bits st - 1)) in *.
+    assert (Hpl : map (lm_plane st idt) keys = map (lm_raw st) keys).
+    { apply map_ext. intro key. apply (lm_plane_raw st req Hst); [apply unsigned_dtype_wf|apply (idt_holds st req Hst Hreq)]. }
+    rewrite Hpl.
+    rewrite (map_res_all_ok _ (fun pl => map (lm_label req true) pl)).
+    2:{ intros pl Hin. apply in_map_iff in Hin. destruct Hin as [key [<- _]]. apply remap_stacked_plane. }
+    cbn [bind]. rewrite map_map.
+    destruct (existsb _ _) eqn:Eex.
+    { exfalso. apply existsb_exists in Eex. destruct Eex as [pl [Hpl' Eex]].
+      apply existsb_exists in Eex. destruct Eex as [v [Hv Ev]].
+      apply in_map_iff in Hpl'. destruct Hpl' as [key [<- _]].
+      apply in_map_iff in Hv. destruct Hv as [v0 [<- Hv0]].
+      unfold lm_label in Ev. destruct (memz v0 req) eqn:Em.
+      - apply memz_In in Em. pose proof (index_of_bound v0 req Em). lia.
+      - unfold zlen in Ev. lia. }
+    f_equal. f_equal. rewrite map_map.
+    set (fp := map (fun s => index_of s req) req).
+    assert (Hg : map (fun key => map (fun j => nth (Z.to_nat j) (onehot (zlen req) d (map (lm_label req true) (lm_raw st key))) []) fp) keys =
+                 map (fun key => map (fun s => map (fun v => if v =? s then 1 else 0) (lm_raw st key)) req) keys).
+    { apply map_ext. intro key. unfold fp. rewrite map_map. apply map_ext_in. intros s Hs.
+      apply onehot_gather; auto. }
+    destruct (zlist_eqb fp (zrange 0 (zlen req))) eqn:Efp.
+    - rewrite <- Hg. apply map_ext. intro key.
+      apply zlist_eqb_eq in Efp. rewrite Efp. unfold zrange, zlen.
+      replace (Z.to_nat (Z.of_nat (length req) - 0)) with (length req) by lia.
+      pose proof (onehot_length (zlen req) d (map (lm_label req true) (lm_raw st key))) as Hl.
+      unfold zlen in Hl. rewrite Nat2Z.id in Hl. rewrite <- Hl at 2 by lia.
+      symmetry. apply gather_id.
+    - rewrite map_map. exact Hg.
   Qed.
 
   (* stacked_channel for label maps: channel k is the mask {pixel value = k-th requested number} *)
@@ -1073,71 +1145,18 @@ Section LabelMapStacked.
     wf_dtype d -> 1 <= dtype_max d ->
     labelmap_read st keys req false relabel d = Ok (OStack a) ->
     a = map (fun key => map (fun s => map (fun v => if v =? s then 1 else 0) (lm_raw st key)) req) keys.
-  Proof.
-    intros Hd H1 H. unfold labelmap_read in H.
-    assert (En : need_remap st req false relabel = true).
-    { unfold need_remap. cbn [negb orb]. apply negb_true_iff.
-      destruct (zlist_eqb req (zrange 1 (zlen req))) eqn:E; [|reflexivity]. exfalso.
-      apply zlist_eqb_length in E. unfold zrange, zlen in E. rewrite zrange_from_length in E.
-      destruct req; [congruence|cbn [length] in E; lia]. }
-    rewrite En in H.
-    set (idt := unsigned_dtype (2 ^ s_bits st - 1)) in *.
-    assert (Hpl : map (lm_plane st idt) keys = map (lm_raw st) keys).
-    { apply map_ext. intro key. apply (lm_plane_raw st req Hst); [apply unsigned_dtype_wf|apply (idt_holds st req Hst Hreq)]. }
-    rewrite Hpl in H.
-    rewrite (map_res_all_ok _ (fun pl => map (lm_label req (negb (false && negb relabel))) pl)) in H.
-    - cbn [bind andb negb] in H. rewrite map_map in H.
-      destruct (existsb _ _) eqn:Eex.
-      + discriminate.
-      + inversion H. rewrite map_map. apply map_ext. intro key.
-        apply onehot_remapped; auto. intros v Hv. apply (raw_values st Hst key v Hv).
-    - intros pl Hin. apply in_map_iff in Hin. destruct Hin as [key [<- _]].
-      apply (remap_plane st req Hst Hreq); [apply unsigned_dtype_wf|].
-      intros s Hs. cbn [andb negb]. unfold lm_label.
-      replace (memz s req) with true by (symmetry; apply memz_In; exact Hs).
-      pose proof (index_of_bound s req Hs). pose proof req_count.
-      destruct Hst as [_ [Hb _]].
-      assert (Hp16 : 2 ^ s_bits st <= 2 ^ 16) by (apply Z.pow_le_mono_r; lia). change (2 ^ 16) with 65536 in Hp16.
-      assert (0 < 2 ^ s_bits st) by (apply Z.pow_pos_nonneg; lia).
-      pose proof (unsigned_dtype_fits (2 ^ s_bits st - 1)). unfold idt. lia.
-  Qed.
-
-  (* ... and the read is never refused by the IndexError guard of the one-hot step *)
-  Lemma labelmap_stacked_total (relabel : bool) d :
-    wf_dtype d -> exists a, labelmap_read st keys req false relabel d = Ok (OStack a).
-  Proof.
-    intros Hd. unfold labelmap_read.
-    assert (En : need_remap st req false relabel = true).
-    { unfold need_remap. cbn [negb orb]. apply negb_true_iff.
-      destruct (zlist_eqb req (zrange 1 (zlen req))) eqn:E; [|reflexivity]. exfalso.
-      apply zlist_eqb_length in E. unfold zrange, zlen in E. rewrite zrange_from_length in E.
-      destruct req; [congruence|cbn [length] in E; lia]. }
-    rewrite En.
-    set (idt := unsigned_dtype (2 ^ s_bits st - 1)) in *.
-    assert (Hpl : map (lm_plane st idt) keys = map (lm_raw st) keys).
-    { apply map_ext. intro key. apply (lm_plane_raw st req Hst); [apply unsigned_dtype_wf|apply (idt_holds st req Hst Hreq)]. }
-    rewrite Hpl.
-    rewrite (map_res_all_ok _ (fun pl => map (lm_label req (negb (false && negb relabel))) pl)).
-    - cbn [bind andb negb]. rewrite map_map.
-      destruct (existsb _ _) eqn:Eex; [|eauto]. exfalso.
-      apply existsb_exists in Eex. destruct Eex as [pl [Hpl' Eex]].
-      apply existsb_exists in Eex. destruct Eex as [v [Hv Ev]].
-      apply in_map_iff in Hpl'. destruct Hpl' as [key [<- _]].
-      apply in_map_iff in Hv. destruct Hv as [v0 [<- Hv0]].
-      unfold lm_label in Ev. destruct (memz v0 req) eqn:Em.
-      + apply memz_In in Em. pose proof (index_of_bound v0 req Em). lia.
-      + unfold zlen in Ev. lia.
-    - intros pl Hin. apply in_map_iff in Hin. destruct Hin as [key [<- _]].
-      apply (remap_plane st req Hst Hreq); [apply unsigned_dtype_wf|].
-      intros s Hs. cbn [andb negb]. unfold lm_label.
-      replace (memz s req) with true by (symmetry; apply memz_In; exact Hs).
-      pose proof (index_of_bound s req Hs). pose proof req_count.
-      destruct Hst as [_ [Hb _]].
-      assert (Hp16 : 2 ^ s_bits st <= 2 ^ 16) by (apply Z.pow_le_mono_r; lia). change (2 ^ 16) with 65536 in Hp16.
-      assert (0 < 2 ^ s_bits st) by (apply Z.pow_pos_nonneg; lia).
-      pose proof (unsigned_dtype_fits (2 ^ s_bits st - 1)). unfold idt. lia.
-  Qed.
+  Proof. intros Hd H1 H. rewrite (labelmap_stacked_eq relabel d Hd H1) in H. inversion H. reflexivity. Qed.
 End LabelMapStacked.
+
+Lemma req_count st req : wf_labelmap st -> forallb (fun s => memz s (s_segs st)) req = true -> NoDup req ->
+  zlen req <= 2 ^ s_bits st - 1.
+Proof.
+  intros Hst Hreq Hnd. destruct Hst as [H0 [Hb [Hp H3]]].
+  assert (0 < 2 ^ s_bits st) by (apply Z.pow_pos_nonneg; lia).
+  apply NoDup_bounded_length; [lia|exact Hnd|].
+  intros s Hs. specialize (Hp s (req_in_segs st req Hreq s Hs)). lia.
+Qed.
+
 
 (* ------------------------------------------------------------------ *)
 (* glue: entry points -> _get_pixels_by_seg_frame -> branches           *)
@@ -1210,16 +1229,28 @@ Proof.
   eapply labelmap_combined; eauto.
 Qed.
 
+(* stacked read of a label map; the request may repeat segment numbers *)
+Lemma labelmap_stacked_read_gen st keys req o d r :
+  wf_labelmap st -> s_ty st = LABELMAP -> wf_opts o -> o_combine o = false -> req <> [] ->
+  zlen req <= 2 ^ s_bits st - 1 ->
+  seg_frame st keys req o = Ok (d, r) ->
+  r = OStack (map (fun key => map (fun s => map (fun v => if v =? s then 1 else 0) (lm_raw st key)) req) keys).
+Proof.
+  intros Hst Hty Ho Hc Hne Hcnt H.
+  destruct (seg_frame_labelmap _ _ _ _ _ _ Hty Ho H) as [Hreq [Hd [Hcap Hl]]].
+  rewrite Hc in *. rewrite (max_output_val_labelmap _ _ _ _ _ Hty) in Hcap.
+  destruct (labelmap_read_shape _ _ _ _ _ _ _ Hl) as [a ->]. f_equal.
+  eapply labelmap_stacked; eauto. lia.
+Qed.
+
 Lemma labelmap_stacked_read st keys req o d r :
   wf_labelmap st -> s_ty st = LABELMAP -> wf_opts o -> o_combine o = false -> req <> [] -> NoDup req ->
   seg_frame st keys req o = Ok (d, r) ->
   r = OStack (map (fun key => map (fun s => map (fun v => if v =? s then 1 else 0) (lm_raw st key)) req) keys).
 Proof.
   intros Hst Hty Ho Hc Hne Hnd H.
-  destruct (seg_frame_labelmap _ _ _ _ _ _ Hty Ho H) as [Hreq [Hd [Hcap Hl]]].
-  rewrite Hc in *. rewrite (max_output_val_labelmap _ _ _ _ _ Hty) in Hcap.
-  destruct (labelmap_read_shape _ _ _ _ _ _ _ Hl) as [a ->]. f_equal.
-  eapply labelmap_stacked; eauto. lia.
+  destruct (seg_frame_labelmap _ _ _ _ _ _ Hty Ho H) as [Hreq _].
+  eapply labelmap_stacked_read_gen; eauto. apply req_count; auto.
 Qed.
 
 (* consequences of the pixel equations: unrequested segments never appear *)
